@@ -69,7 +69,14 @@ int g_t0;			/* data->access_time on entry */
 
 #define E(i) (data->cache[i])
 #define MATCH(i) (E(i).in_use && E(i).block == g_bstar)
-#define ENTRY_OK(i, L) (!MATCH(i) || (E(i).buf[g_ostar] == (char)(L) && (E(i).dirty || g_disk == (L))))
+/*
+ * The tracked byte of entry i is read through the ghost copy g_cbuf[i] of the buffer pointer (set when the channel is
+ * built, never assigned afterwards), not through E(i).buf: CBMC re-assembles pointer fields of `struct unix_private_data`
+ * from bytes after every write through a `struct unix_cache *`, and dereferencing such a pointer is very expensive.  That
+ * the functions never change the buffer pointers is a separate, cheap obligation (bufs_tied).
+ */
+#define CBYTE(i) (g_cbuf[i][g_ostar])
+#define ENTRY_OK(i, L) (!MATCH(i) || (CBYTE(i) == (char)(L) && (E(i).dirty || g_disk == (L))))
 #define NMATCH (MATCH(0) + MATCH(1) + MATCH(2) + MATCH(3) + MATCH(4) + MATCH(5) + MATCH(6) + MATCH(7))
 #define COHERENT_L(L) (NMATCH <= 1 && ENTRY_OK(0, L) && ENTRY_OK(1, L) && ENTRY_OK(2, L) && ENTRY_OK(3, L) && ENTRY_OK(4, L) && \
 		  ENTRY_OK(5, L) && ENTRY_OK(6, L) && ENTRY_OK(7, L) && (NMATCH == 1 || g_disk == (L)))
@@ -230,6 +237,9 @@ static errcode_t reuse_cache(io_channel channel, struct unix_private_data *data,
 	REQUIRES(IDX_OK(cache) && ALL(NOT_THIS))
 	ENSURES(RET != 0 || (cache->in_use && !cache->dirty && cache->block == block))
 	ENSURES(RET == 0 || (cache->in_use && cache->dirty && cache->block == OLD(cache->block) && cache->write_err))
+	/* it can only fail by failing to write back a dirty victim */
+	ENSURES(RET == 0 || (OLD(cache->in_use) && OLD(cache->dirty)))
+	ENSURES((OLD(cache->in_use) && OLD(cache->dirty)) ? g_nwrites == OLD(g_nwrites) + 1 : g_nwrites == OLD(g_nwrites))
 	ENSURES(VICTIM_AT_LSTAR ? (RET != 0 || g_disk == (unsigned char)cache->buf[g_ostar]) : g_disk == OLD(g_disk))
 	ENSURES(RET == 0 ? g_wfail == OLD(g_wfail) : g_wfail == 1)
 	ENSURES(data->access_time >= OLD(data->access_time) && data->access_time <= OLD(data->access_time) + 1)
